@@ -307,6 +307,7 @@ static void stringify_case(FILE *out, vf::Rng &rng, int w) {
 
 int main(int argc, char **argv) {
     vf::install_handlers();
+    vf::ledger_trace("h_json", true);
     if (argc < 2) return 2;
     std::string mode = argv[1];
     if (mode == "enum" && argc >= 5) {
